@@ -8,7 +8,7 @@ from ..strategies import program_strategy, spec_strategy
 from ._sim_common import frac, summarize
 
 ID = "C06"
-RULE = ("(index markets are also asked compute_fundamental_index / compute_market_index for future times; one configuration in six has an index of indices) Hypothesis generates session lists whose cumulative lengths straddle 99/100/101 and 199/200/201 (<=230 steps quick, "
+RULE = ("(one configuration in four contains a zero-step session; the clock is also read at every SessionBegin / SessionEnd record: the session's first time, then the next session's first time) (index markets are also asked compute_fundamental_index / compute_market_index for future times; one configuration in six has an index of indices) Hypothesis generates session lists whose cumulative lengths straddle 99/100/101 and 199/200/201 (<=230 steps quick, "
         "<=450 thorough), 1-3 markets plus an optional index market, scripted agents, a fundamental price shock, optionally "
         "a trading halt rule and (one run in three) a user event that changes a drift in mid-run. A probe event runs before every market step: every single-time getter is asked for now+1 and "
         "now+k (k in 2..250), every series getter for [0, now+k], the index getters for now+1 -- each must refuse (raise); the full series for times < now is compared (None/NaN-aware, exactly) with the snapshot of the "
